@@ -320,7 +320,7 @@ def c07(cases, f64=False):
     for c in cases:
         name = c.desc[0]
         n = c.desc[1] if len(c.desc) > 1 and isinstance(c.desc[1], int) else None
-        xs = c.inputs()
+        xs = [F(f64_of_bits(int(x[1:], 16))) if isinstance(x, str) else x for x in c.inputs()]      # raw bit patterns -> their exact values
         got = c.outs()
         if f64:
             got = [None if g is None else g if isinstance(g, str) else F(f64_of_bits(g)) if math.isfinite(f64_of_bits(g)) else "E" for g in got]
@@ -355,7 +355,21 @@ def c07(cases, f64=False):
                     break
             if name == "Vsct" and f64 and abs(float(g)) > (n - 1) / math.sqrt(n) * (1 + 1e-15 * 8):
                 small = abs(float(g)) <= (n - 1) / math.sqrt(n) * (1 + 1e-6)
-                bad("|Vsct| = %.17g exceeds (N-1)/sqrt(N) = %.17g" % (abs(float(g)), (n - 1) / math.sqrt(n)), t, "c07-vsct-residue-f64" if small else None)
+                key_ = "c07-vsct-residue-f64" if small else None
+                if not small:
+                    # the known finding c07-range-vsct-f64 is the WelfordOnline residue on a (nearly) flat window after larger values: attribute the
+                    # excursion to it only when the window at this step is nearly flat relative to the largest magnitude seen; otherwise it is new
+                    vals = [x for x in xs[:t + 1] if not isinstance(x, str)]
+                    w = vals[-n:]
+                    if len(w) >= 2:
+                        M = max(abs(v) for v in vals)
+                        if any(o[0] == "W" for o in c.ops):
+                            M = max(M, F(400))          # the generated prefix walks inside [0.4, 400]
+                        mean_ = sum(w) / len(w)
+                        m2_ = sum((v - mean_) ** 2 for v in w)
+                        if not (m2_ <= F(1, 10 ** 9) * M * M * len(w)):
+                            key_ = "c07-range-vsct-f64-not-residue"
+                bad("|Vsct| = %.17g exceeds (N-1)/sqrt(N) = %.17g" % (abs(float(g)), (n - 1) / math.sqrt(n)), t, key_)
                 break
             if name == "Cog":
                 k = min(n, t + 1)
